@@ -581,6 +581,8 @@ func vfC01Run(t *testing.T, cs vfC01Case, out *vfC01Out, isKnown func(string) bo
 		vfSettle()
 		time.Sleep(2 * time.Second)
 		vfSettle()
+		nFramesBeforeFinal := len(conn.Frames())
+		closedBeforeFinal, _ := conn.T.Closed()
 		// Let the periodic position check run (it rides on the presence tick; ClientChannelPositionCheckDelay is 40 s):
 		// a subscription that lost a trailing publication is documented to be ended with insufficient state then.
 		for i := 0; i < 3; i++ {
@@ -701,7 +703,12 @@ func vfC01Run(t *testing.T, cs vfC01Case, out *vfC01Out, isKnown func(string) bo
 			}
 			return ""
 		}
+		var segBefore segment // state of the last segment right before the final position-check phase
+		haveBefore := false
 		for fi, f := range frames {
+			if fi == nFramesBeforeFinal && !haveBefore {
+				segBefore, haveBefore = seg, true
+			}
 			if f.Err != nil {
 				return fmt.Sprintf("frame %d undecodable: %v", fi, f.Err)
 			}
@@ -776,21 +783,27 @@ func vfC01Run(t *testing.T, cs vfC01Case, out *vfC01Out, isKnown func(string) bo
 			rec, ok := byKey[fmt.Sprintf("%s/%d", nd.epoch, nd.off)]
 			return ok && cs.ServerTF.Match(rec.Tags) && clientTF.Match(rec.Tags)
 		}
-		if seg.active && !seg.unjudged && !seg.srvRecover && seg.epoch != "" && !closedAtEnd {
-			// "If the server cannot guarantee this ... it ends the subscription": a subscription that is still alive at the
-			// end must have been given every publication that reached this node after its start frame was written - the
-			// server either delivers it, or (gap, other epoch) ends the subscription; silently dropping it is neither.
+		if !haveBefore {
+			segBefore = seg
+		}
+		if sb := segBefore; sb.active && !sb.unjudged && !sb.srvRecover && sb.epoch != "" && !closedBeforeFinal {
+			// "If the server cannot guarantee this ... it ends the subscription": a subscription that is still alive when the
+			// schedule is over (before the periodic position checks of the final phase get a chance to clean up) must have
+			// been given every publication that reached this node after its start frame was written - the server either
+			// delivers it, or (gap, other epoch) ends the subscription; silently dropping it is neither.
 			for _, nd := range dels {
-				if nd.frames <= seg.startFrame || !visible(nd) {
+				if nd.frames <= sb.startFrame || !visible(nd) {
 					continue
 				}
-				if nd.epoch != seg.epoch || nd.off > seg.last {
+				if nd.epoch != sb.epoch || nd.off > sb.last {
 					out.labels = append(out.labels, "stuck_subscription")
-					return fmt.Sprintf("subscription is still active at the end (last delivered offset %d, epoch %s) although publication offset %d epoch %s reached this node after the subscription had started (%d frames written then, start frame %d): it was neither delivered nor answered with an insufficient-state end; frames: %s",
-						seg.last, seg.epoch, nd.off, nd.epoch, nd.frames, seg.startFrame, rendered)
+					return fmt.Sprintf("subscription is still active when the schedule is over (last delivered offset %d, epoch %s) although publication offset %d epoch %s reached this node after the subscription had started (%d frames written then, start frame %d): it was neither delivered nor answered with an insufficient-state end; frames: %s",
+						sb.last, sb.epoch, nd.off, nd.epoch, nd.frames, sb.startFrame, rendered)
 				}
 			}
 			out.labels = append(out.labels, "alive_at_end_holds_everything_delivered_to_the_node")
+		}
+		if seg.active && !seg.unjudged && !seg.srvRecover && seg.epoch != "" && !closedAtEnd {
 			// ... and after the periodic position checks of the final phase it must hold the stream top: a trailing loss
 			// (dropped delivery, publication lost inside the subscribe window) is something the server can detect.
 			if curEpoch != "" && curEpoch != seg.epoch {
